@@ -684,14 +684,15 @@ func (t *tree) parseMsgRawText(node *ast.RawTextNode) []ast.Node {
 			start, end = ii[0], ii[1]
 		}
 
+		// (all parts are reported at the position of the text they come from:
+		// the text is normalized, so offsets into it are not offsets into the
+		// source, and adding them could point past the end of the input)
 		if start > 0 {
 			r = append(r, &ast.RawTextNode{pos, txt[:start]})
-			pos += ast.Pos(start)
 		}
 
 		if end > start {
 			r = append(r, &ast.MsgPlaceholderNode{pos, "", &ast.MsgHtmlTagNode{pos, txt[start:end]}})
-			pos += ast.Pos(end - start)
 		}
 
 		txt = txt[end:]
